@@ -513,6 +513,10 @@ func (d *Driver) nextRaw() Event {
 			amt := []int64{10, 1000, 50000, 150000, 250000, 400000, 1000000}[d.R.Intn(7)]
 			if k == "Delegate" && d.R.Intn(7) == 0 {
 				amt = 20000000 // more than the balance: fails after the first staking hook ran
+				if d.R.Intn(3) == 0 {
+					// ... attempted by the validator's own operator account: the largest delegation there is
+					who = map[string]string{"v1": "vo1", "v2": "vo2"}[val]
+				}
 			}
 			if k == "Undelegate" {
 				// prefer an existing delegation, sometimes all of it
@@ -619,7 +623,27 @@ func (d *Driver) nextRaw() Event {
 				if val == "" {
 					return Event{Kind: "Reset", Creator: n, Status: 15, Val: d.pick([]string{"v1", "v2"}), Tx: d.P.HotKeys[n]}
 				}
-				return Event{Kind: "Delegate", Creator: n, Val: val, Amount: []int64{250000, 400000, 1000000}[d.R.Intn(3)]}
+				amt := []int64{250000, 400000, 1000000}[d.R.Intn(3)]
+				if d.R.Intn(2) == 0 {
+					// boundary values: the stake that puts the node's share just under / exactly at / just over the threshold
+					sn, sd := ratio(d.C.Cfg.ShareThreshold)
+					var own, total int64
+					for _, v := range d.St.Vals {
+						if v.V == val {
+							total = v.Shares
+						}
+					}
+					for _, dl := range d.St.Delegs {
+						if dl.D == n && dl.V == val {
+							own = dl.Shares
+						}
+					}
+					// (own+x)*sd = (total+x)*sn
+					if x := (total*sn - own*sd) / (sd - sn); x > 10 {
+						amt = x + []int64{-3, -1, 0, 1, 3}[d.R.Intn(5)]
+					}
+				}
+				return Event{Kind: "Delegate", Creator: n, Val: val, Amount: amt}
 			}
 		case "ResetSuper":
 			n := d.pick(d.P.Nodes)
@@ -666,7 +690,15 @@ func (d *Driver) nextRaw() Event {
 				}
 				if fe, ok := mk(sh); ok {
 					accused = sh.Sp
-					switch d.R.Intn(14) {
+					switch d.R.Intn(16) {
+					case 6, 7:
+						// the data id of ANOTHER existing model with this order and shard
+						for _, m := range d.St.Metas {
+							if m.Data != fe.Data {
+								fe.Data = m.Data
+								break
+							}
+						}
 					case 0:
 						fe.Commit = "" // empty commit id
 					case 1:
@@ -859,7 +891,7 @@ func (d *Driver) sidNames() []string {
 	return out
 }
 
-// aspirants: nodes without the super role that hold the required share of the validator they declare.
+// aspirants: nodes without the super role that hold (nearly) the required share of the validator they declare.
 func (d *Driver) aspirants() []string {
 	var out []string
 	for _, n := range d.St.Nodes {
@@ -874,7 +906,8 @@ func (d *Driver) aspirants() []string {
 			}
 		}
 		for _, dl := range d.St.Delegs {
-			if dl.D == n.A && dl.V == n.Val && dl.Shares > 0 && dl.Shares*sd >= total*sn {
+			// (within a tenth under the threshold counts too: the decisions right at the boundary)
+			if dl.D == n.A && dl.V == n.Val && dl.Shares > 0 && dl.Shares*sd*11 >= total*sn*10 {
 				out = append(out, n.A)
 				break
 			}
